@@ -85,12 +85,12 @@ def pattern(rows: int, cols: int) -> np.ndarray:
 
 def bucket_array(bucket: str, v: float, rows: int, cols: int, args: dict) -> Any:
     base = v + pattern(rows, cols)
-    if bucket == "photon":
+    if bucket in ("photon", "photon+"):
         return base.astype(args.get("float_dtype", "float64"))
-    if bucket == "photon3d":
+    if bucket in ("photon3d", "photon3d+"):
         nw = int(args.get("nwave", 3))
         return np.stack([base + 0.1 * k for k in range(nw)]).astype(args.get("float_dtype", "float64"))
-    if bucket == "charge":
+    if bucket in ("charge", "clusters"):
         return base
     if bucket == "pixel":
         return base
@@ -182,6 +182,13 @@ def simulate(scn: dict, overrides: Optional[dict] = None) -> dict:
                 arr = bucket_array(b, v, rows, cols, args)
                 if b in ("photon", "photon3d"):
                     state["photon"] = arr
+                elif b in ("photon+", "photon3d+"):
+                    state["photon"] = arr if state["photon"] is None else state["photon"] + arr
+                elif b == "clusters":
+                    add = np.zeros((rows, cols))
+                    add[0, 0] += arr[0, 0]
+                    add[-1, -1] += arr[-1, -1]
+                    state["charge"] = state["charge"] + add
                 elif b == "charge":
                     state["charge"] = state["charge"] + arr
                 elif b == "pixel":
